@@ -129,7 +129,7 @@ type stWorld struct {
 	lookups    map[string]int
 	dialFault  map[string]error // covert addr -> dial error
 	postErr    error
-	covertMode map[string]string // addr -> "echo" (default) | "sink" | "close"
+	covertMode map[string]string // addr -> "echo" (default) | "sink" | "drip" | "close"
 	nconn      int
 	captureOff int64
 	ingestDone bool
@@ -448,6 +448,26 @@ func (w *stWorld) dial(network, addr string) (net.Conn, error) {
 				}
 			}
 			H.Close()
+		})
+	case "drip":
+		// a covert host that sends on its own, slowly, and never answers what it receives: five
+		// chunks of 600 bytes, 12 s apart (a one-way download that lasts a minute)
+		w.s.Spawn(name, func() {
+			buf := make([]byte, 65536)
+			for {
+				if _, err := H.Read(buf); err != nil {
+					break
+				}
+			}
+			H.Close()
+		})
+		w.s.Spawn(name+".drip", func() {
+			for k := 0; k < 5; k++ {
+				time.Sleep(12 * time.Second)
+				if _, err := H.Write(stDripChunk(k)); err != nil {
+					return
+				}
+			}
 		})
 	case "close":
 		w.s.Spawn(name, func() { H.Close() })
@@ -885,6 +905,15 @@ func stIsTimeout(err error) bool {
 }
 
 // readN reads exactly n bytes (or until error / the given simulated deadline).
+// stDripChunk is the k-th chunk a "drip" covert sends (and a one-way uploading client, too).
+func stDripChunk(k int) []byte {
+	b := make([]byte, 600)
+	for i := range b {
+		b[i] = byte(0x40 + (k*37+i*11)%0x3f)
+	}
+	return b
+}
+
 func stReadN(c net.Conn, n int, deadline time.Duration) ([]byte, error) {
 	c.SetReadDeadline(time.Now().Add(deadline))
 	buf := make([]byte, n)
